@@ -52,7 +52,28 @@ def infer_nocache(src):
           "errors": [e[0] for e in r["errors"]]}
 
 
+def infer_nosimplify(src):
+  """Counterfactual for the known finding KNOWN_SIMPLIFY: the same analysis with
+  abstract_utils.simplify_variable (an optimisation: 'Deduplicates identical data') switched off,
+  i.e. replaced by the identity, in this worker process only (nothing in the repository changes)."""
+  import terms
+  boot.boot()
+  from pytype.abstract import abstract_utils
+  orig = abstract_utils.simplify_variable
+  abstract_utils.simplify_variable = lambda var, node, ctx: var
+  try:
+    r = pyt.analyze(src, want_ast=True)
+  finally:
+    abstract_utils.simplify_variable = orig
+  if r["outcome"] != "result":
+    return {"outcome": r["outcome"], "exc": r["exc"], "errors": r["errors"]}
+  return {"outcome": "result", "slots": terms.stub_slots(r["ast"]), "pyi": r["pyi"],
+          "errors": [e[0] for e in r["errors"]]}
+
+
 KNOWN_CACHE = "C01:call-cache-return-invisible-in-sibling-branch"
+KNOWN_SIMPLIFY = "C01:simplify-variable-conjoins-merged-bindings"
+KNOWN_FINAL = "C01:function-signature-inferred-in-final-module-state"
 NSLICES = 20
 
 
@@ -81,18 +102,29 @@ def build_case(run_rec, inf):
         t = ["any", "", []]      # a base the stub does not describe (e.g. Any base)
         break
     slots.append({"k": "attr", "n": "%s.%s" % (cls, a), "t": t or MISSING, "v": v})
-  for f, v in run_rec["rets"]:
-    t = st["rets"].get(f)
-    if t is None and "." in f:
-      cls, m = f.split(".")
-      for c in H.get(cls, [cls]):
-        if "%s.%s" % (c, m) in st["rets"]:
-          t = st["rets"]["%s.%s" % (c, m)]
-          break
+  sites = run_rec.get("ret_sites") or [-1] * len(run_rec["rets"])
+  for (f, v), site in zip(run_rec["rets"], sites):
+    t = ret_type(st, H, f)
     if t is None:
       continue      # property: values returned by module-level calls of functions the stub declares
-    slots.append({"k": "ret", "n": f, "t": t, "v": v})
+    # site = 1-based index (in the surviving statements) of the module-level statement making the call
+    slots.append({"k": "ret", "n": f, "t": t, "v": v, "site": site + 1, "root": f.split(".")[0]})
   return {"H": H, "slots": slots}
+
+
+def ret_type(st, H, f):
+  """Return type the stub declares for function / Class.method f (methods: along the MRO)."""
+  t = st["rets"].get(f)
+  if t is None and "." in f:
+    cls, m = f.split(".")
+    for c in H.get(cls, [cls]):
+      if "%s.%s" % (c, m) in st["rets"]:
+        return st["rets"]["%s.%s" % (c, m)]
+  return t
+
+
+def slot_id(s):
+  return (s["k"], s["n"], json.dumps(s["v"]), s.get("site", 0))
 
 
 def main():
@@ -140,7 +172,8 @@ def main():
   run.put("construct_counts", kinds)
   need = {"assign", "if", "ifonly", "try", "def", "class", "lambda", "lcomp", "cond", "or", "and",
           "isinst", "isnone", "call", "attr", "meth", "sub", "bcall", "list", "dict", "tuple", "set"}
-  common.require(need <= set(kinds), "generator coverage: missing %s" % sorted(need - set(kinds)))
+  common.require(need <= set(kinds) or a.replay,
+                 "generator coverage: missing %s" % sorted(need - set(kinds)))
   infs = pyt.batch(infer, [r["src"] for r in recs], procs=8, chunksize=4)
   cases = []
   keep = []
@@ -168,39 +201,93 @@ def main():
   common.require(run.cov["slots_by_kind"]["attr"] > 10 and run.cov["slots_by_kind"]["ret"] > 10
                  or a.replay, "vacuity: attribute / return slots not exercised")
   bads = tlc.parse_cases(r.out, "BAD")
-  # attribution to the known call-cache finding is by a counterfactual run judged by TLC as well:
-  # the same program analysed with skip_repeat_calls=False must admit the slot
-  cf_bad = {}
-  if bads:
-    idxs = sorted({b["i"] - 1 for b in bads})
-    cf_infs = pyt.batch(infer_nocache, [keep[i][0]["src"] for i in idxs], procs=8, chunksize=1)
+  # ---- attribution of failing slots to known root causes, each by a counterfactual judged by TLC ----
+  # open: program index -> failing slots not yet attributed
+  open_ = {b["i"] - 1: [cases[b["i"] - 1]["slots"][k - 1] for k in b["fails"]] for b in bads}
+  attributed = {}       # (program index, slot_id) -> root-cause key
+
+  def counterfactual(worker, key, label):
+    """Same programs analysed by `worker`: a slot that failed and is admitted now gets `key`."""
+    idxs = sorted(i for i in open_ if open_[i])
+    if not idxs:
+      return
+    cf_infs = pyt.batch(worker, [keep[i][0]["src"] for i in idxs], procs=8, chunksize=1)
     cf_cases, cf_idx = [], []
     for i, inf2 in zip(idxs, cf_infs):
       if inf2["outcome"] == "result":
         cf_cases.append(build_case(keep[i][0], inf2))
         cf_idx.append(i)
-    if cf_cases:
-      _, bad2, r2 = tlc.validate_cases("TraceC01", cf_cases, cfg=TRACE_CFG, timeout=3000, heap="4g")
-      common.require(bad2 is None, "TraceC01 invariant cannot fail")
-      for i, c in zip(cf_idx, cf_cases):
-        cf_bad[i] = set()
-      for b in tlc.parse_cases(r2.out, "BAD"):
-        i = cf_idx[b["i"] - 1]
-        cf_bad[i] = {(cf_cases[b["i"] - 1]["slots"][k - 1]["k"], cf_cases[b["i"] - 1]["slots"][k - 1]["n"])
-                     for k in b["fails"]}
-    run.put("counterfactual_runs", len(cf_cases))
+    run.add("counterfactual_runs", len(cf_cases))
+    run.add("counterfactual_runs_" + label, len(cf_cases))
+    if not cf_cases:
+      return
+    _, bad2, r2 = tlc.validate_cases("TraceC01", cf_cases, cfg=TRACE_CFG, timeout=3000, heap="4g")
+    common.require(bad2 is None, "TraceC01 invariant cannot fail")
+    still = {i: set() for i in cf_idx}
+    for b in tlc.parse_cases(r2.out, "BAD"):
+      still[cf_idx[b["i"] - 1]] = {slot_id(cf_cases[b["i"] - 1]["slots"][k - 1]) for k in b["fails"]}
+    for i, c in zip(cf_idx, cf_cases):
+      present = {slot_id(s2) for s2 in c["slots"]}
+      rest = []
+      for s in open_[i]:
+        # admitted in the counterfactual run = judged there (same slot, same value) and not failing
+        if slot_id(s) in present and slot_id(s) not in still[i]:
+          attributed[(i, slot_id(s))] = key
+        else:
+          rest.append(s)
+      open_[i] = rest
+
+  # (1) the call cache: the same program analysed with skip_repeat_calls=False admits the slot
+  counterfactual(infer_nocache, KNOWN_CACHE, "nocache")
+  # (2) simplify_variable: the same program analysed with that optimisation switched off admits it
+  counterfactual(infer_nosimplify, KNOWN_SIMPLIFY, "nosimplify")
+  # (3) "ret" slots: signatures are inferred in the module's FINAL state.  Counterfactual: the stub of
+  #     the program cut off right before the calling statement; TLC judges FinalStateSlotOK =
+  #     ReadsRebound (precondition computed from the program term) and admitted by that stub's type
+  fs_jobs = []
+  for i in sorted(open_):
+    for s in open_[i]:
+      if s["k"] == "ret" and s.get("site", 0) >= 2:
+        fs_jobs.append((i, s))
+  if fs_jobs:
+    stmts_of = {i: keep[i][0]["stmts"] for i, _ in fs_jobs}
+    pre_srcs = sorted({(i, s["site"]) for i, s in fs_jobs})
+    pre_infs = pyt.batch(infer, ["".join(progterms.stmt(x) for x in stmts_of[i][:site - 1])
+                                 for i, site in pre_srcs], procs=8, chunksize=1)
+    pre = dict(zip(pre_srcs, pre_infs))
+    fs_cases, fs_keep = [], []
+    for i, s in fs_jobs:
+      inf2 = pre[(i, s["site"])]
+      if inf2["outcome"] != "result":
+        continue
+      t2 = ret_type(inf2["slots"], keep[i][0]["H"], s["n"])
+      fs_cases.append({"mode": "final-state", "H": keep[i][0]["H"], "prog": stmts_of[i],
+                       "slots": [dict(s, t=t2 or MISSING)]})
+      fs_keep.append((i, s))
+    run.add("counterfactual_runs", len(pre_srcs))
+    run.add("counterfactual_runs_prefix", len(pre_srcs))
+    if fs_cases:
+      _, bad3, r3 = tlc.validate_cases("TraceC01", fs_cases, cfg=TRACE_CFG, timeout=3000, heap="4g")
+      common.require(bad3 is None, "TraceC01 invariant cannot fail")
+      failing = {b["i"] - 1 for b in tlc.parse_cases(r3.out, "BAD")}
+      for j, (i, s) in enumerate(fs_keep):
+        if j not in failing:
+          attributed[(i, slot_id(s))] = KNOWN_FINAL
+          open_[i] = [x for x in open_[i] if slot_id(x) != slot_id(s)]
   for rec_bad in bads:
     idx = rec_bad["i"] - 1
     rec, inf = keep[idx]
     for k in rec_bad["fails"]:
       s = cases[idx]["slots"][k - 1]
-      if idx in cf_bad and (s["k"], s["n"]) not in cf_bad[idx]:
-        key = KNOWN_CACHE
-      else:
+      key = attributed.get((idx, slot_id(s)))
+      if key is None:
         # identity of a finding = the exact input (program text) and the slot
         key = "C01:input:%s:%s:%s" % (hashlib.sha1(rec["src"].encode()).hexdigest()[:12], s["k"], s["n"])
       run.violation(key, "slot %s %s declared %s but holds %s" % (s["k"], s["n"], s["t"], s["v"]),
                     {"program": rec["program"], "src": rec["src"], "pyi": inf["pyi"], "slot": s})
+  run.put("failing_slots", sum(len(b["fails"]) for b in bads))
+  run.put("known_input_findings_hit", sum(1 for k in run.known_hits if k.startswith("C01:input:")))
+  run.put("known_root_cause_findings_hit", sum(1 for k in run.known_hits if not k.startswith("C01:input:")))
   return run.finish()
 
 
